@@ -55,6 +55,8 @@ def sites(case, specie='Li'):
     if case['sites'].get('image_shift') is not None:
         frac = frac + np.array(case['sites']['image_shift'], float)
     M = np.array(case['lattice']['matrix'], float) * float(case.get('sites_cell_scale', 1.0))  # the site structure may come from a slightly different cell
+    if case.get('sites_cell_rot') is not None:  # ... or carry the same cell in another orientation
+        M = M @ oracle.quat_to_rot(case['sites_cell_rot']).T
     return cases.sites_structure(M, frac, case['sites']['labels'], specie)
 
 
